@@ -187,10 +187,14 @@ def split_at_loop(fi: FuncInfo, which: int = 0, kind=(ast.For, ast.While)):
         idxs = [i for i, st in enumerate(body) if isinstance(st, kind)]
     if len(idxs) <= which:
         raise AnalysisError(f"{fi.qualname}: expected a top-level loop #{which} - shape not recognised")
+    if STRICT_LOOPS and len(idxs) > 1 and fi.qualname in FLATTENED:
+        raise AnalysisError(f"{fi.qualname}: {len(idxs)} top-level loops in the helper-flattened form; which one is the function's own is not decided")
     k = idxs[which]
     return body[:k], normalise_while(fi, body[k]), body[k + 1:]
 
 
+STRICT_LOOPS = False          # second reading (helper-flattened program): "the loop" of a function must be the only candidate
+FLATTENED: set = set()        # qualnames read in flattened form
 _DESUGARED: Dict[int, list] = {}
 _NORMAL_WHILE: Dict[int, ast.While] = {}
 
@@ -368,6 +372,8 @@ def locate_loop(fi: FuncInfo, which: int = 0, kind=(ast.For, ast.While)):
         walk(desugar_comprehensions(fi), [], [])
     if len(found) <= which:
         raise AnalysisError(f"{fi.qualname}: expected a loop #{which} outside other loops - shape not recognised")
+    if STRICT_LOOPS and len({id(f_[1]) for f_ in found}) > 1 and fi.qualname in FLATTENED:
+        raise AnalysisError(f"{fi.qualname}: {len(found)} loops outside other loops in the helper-flattened form; which one is the function's own is not decided")
     pre_, loop_, post_, conds_ = found[which]
     return pre_, normalise_while(fi, loop_), post_, conds_
 
@@ -655,3 +661,13 @@ def affine_positions(ev, fi, loop, benv, carried, env, idx: Rat, first: Rat) -> 
         for n in bad:
             del cand[n]
     return {}
+
+
+def section(rc, fn, *args, **kwargs):
+    """Run one independent part of a property's rules: a shape that part cannot read (AnalysisError) is recorded and the
+    other parts are still decided - a violation found elsewhere is not lost because one function was rewritten."""
+    try:
+        return fn(rc, *args, **kwargs)
+    except AnalysisError as e:
+        rc.res.error(str(e))
+        return None
